@@ -194,6 +194,42 @@ def judge(pool, cfg, pump, limit=45):
     return fail
 
 
+def _costs(reqs, names):
+    """the replies to [reqs] (two per pump, pumps grouped by pattern in [names]); None where the model did not answer in time.
+    One process per pattern; when a pattern does not finish within 20 s its pumps are asked one by one with 3 s each."""
+    from common import _run_model_1
+    groups, start = [], 0
+    for i in range(1, len(names) + 1):
+        if i == len(names) or names[i] != names[start]:
+            groups.append((start, i))
+            start = i
+    res = [None] * len(reqs)
+
+    def whole(g):
+        a, b = g
+        try:
+            return g, _run_model_1(reqs[2 * a:2 * b], 20)
+        except Exception:  # noqa
+            return g, None
+
+    def single(i):
+        try:
+            return i, _run_model_1(reqs[2 * i:2 * i + 2], 3)
+        except Exception:  # noqa
+            return i, None
+    with cf.ThreadPoolExecutor(max_workers=12) as ex:
+        slow = []
+        for (a, b), out in ex.map(whole, groups):
+            if out is None:
+                slow += list(range(a, b))
+            else:
+                res[2 * a:2 * b] = out
+        for i, out in ex.map(single, slow):
+            if out is not None:
+                res[2 * i:2 * i + 2] = out
+    return res
+
+
 def model_candidates(ctx, per_pattern):
     """structure-directed pumps on the counting model: [(growth, name, pump)] with super-quadratic step growth.
     Sizes grow in stages (5/10, 10/20, 24/48); a pump whose count explodes at a small size is a candidate at once and is
@@ -217,10 +253,18 @@ def model_candidates(ctx, per_pattern):
         for name, (pre, u, suf) in live:
             reqs.append(("rx_cost", [name, pre + u * n1 + suf, 0]))
             reqs.append(("rx_cost", [name, pre + u * n2 + suf, 0]))
-        res = run_model(reqs, timeout=300)
+        res = _costs(reqs, [name for name, _pump in live])
         n_req += len(reqs)
         keep = []
+        exploded = {}
         for i, (name, pump) in enumerate(live):
+            if res[2 * i] is None or res[2 * i + 1] is None:
+                # the counting engine itself needs more than seconds on a subject of a few dozen characters: super-polynomial;
+                # three pumps per pattern are enough to pursue
+                exploded[name] = exploded.get(name, 0) + 1
+                if exploded[name] <= 3:
+                    out.append((1e9, name, pump))
+                continue
             a, b = res[2 * i][1], res[2 * i + 1][1]
             total += a + b
             g = b / max(a, 1)
